@@ -80,7 +80,7 @@ def jmsg(a: dict) -> dict:
         return {"cmd": "BAD", "req": False, "hbh": 0, "e2e": 0, "app": 0, "rc": 0, "oh": ""}
     return {"cmd": a["cmd"], "code": a["code"], "req": bool(a["req"]), "hbh": a["hbh"], "e2e": a["e2e"], "app": a["app"],
             "rc": a["rc"] if isinstance(a["rc"], int) else 0, "oh": a["oh"] or "", "T": bool(a["T"]), "P": bool(a.get("P")),
-            "E": bool(a.get("E")), "rlm": a.get("rlm", "")}
+            "E": bool(a.get("E")), "rlm": a.get("rlm", "")} | ({"dc": a["dc"]} if a.get("cmd") == "DP" and a.get("req") and isinstance(a.get("dc"), int) else {})
 
 
 # ----------------------------------------------------------------------
@@ -152,6 +152,8 @@ class Runner:
                 out.append({"ev": ev, "k": e["k"], "r": e["r"], "hbh": e["hbh"], "e2e": e["e2e"]})
             elif ev == "thread_exit":
                 out.append({"ev": ev, "th": e["th"], "exc": e["exc"]})
+            elif ev == "stop_done":
+                out.append({"ev": ev, "r": e["r"], "listen": e["listen"], "nodeThreads": e["nodeThreads"]})
         self._mark = len(s.obs)
         return out
 
@@ -200,6 +202,21 @@ class Runner:
             w.finish_connect(self._vc(act["c"]), act["err"])
         elif a == "tick":
             w.tick(1)
+        elif a == "stop":
+            from . import simrt as _simrt
+
+            def stopper(force=act["force"], wait=act["wait"]):
+                try:
+                    w.node.stop(wait_timeout=wait, force=force)
+                    r = "ok"
+                except _simrt.SimKill:
+                    raise
+                except BaseException as e:
+                    r = type(e).__name__
+                w.s.emit("stop_done", r=r, listen=sum(1 for sk in w.s.net.sockets if sk.listening and not sk.closed),
+                         nodeThreads=sum(1 for t in w.s.threads if t.is_alive() and getattr(t, "role", ("",))[0] in ("io", "stats")))
+            w.spawn(stopper, name="stopper", role="stop")
+            w.run()
         elif a == "send":
             app = w.apps[act["app"]]
             w.pick = act["pick"]
@@ -338,6 +355,8 @@ class Gen:
             claimed = host if (host and rng.random() < 0.85) else rng.choice(self.hosts)
         kinds = ["cer", "cea", "dwr", "dwa", "dpr", "dpa", "req", "ans", "ureq", "uans"]
         kind = rng.choices(kinds, weights=self.focus.get("weights", [2, 2, 2, 2, 1, 1, 6, 2, 1, 1]))[0]
+        if getattr(self, "stopped", False) and rng.random() < 0.6:
+            kind = "dpa"                 # peers answer the node's DPR (promptly, late, or not at all)
         # steer towards completing the capabilities exchange properly most of the time
         st = self.conn_state(vc)
         if st == "CONNECTED" and rng.random() < 0.8:
@@ -438,6 +457,8 @@ class Gen:
             choices.append(("plan", 1))
         if self.focus.get("send") and self.r.full_cfg["apps"]:
             choices.append(("send", self.focus["send"]))
+        if self.focus.get("stop") and not getattr(self, "stopped", False):
+            choices.append(("stop", self.focus["stop"]))
         aw = self.focus.get("act", {})
         choices = [(nm, aw.get(nm, wt)) for nm, wt in choices if aw.get(nm, wt) > 0]
         names, weights = zip(*choices)
@@ -446,9 +467,22 @@ class Gen:
             self.pending_ticks = rng.randint(1, 4)
         if a == "tick" or a == "connect":
             return {"a": a}
+        if a == "stop":
+            self.stopped = True
+            return {"a": "stop", "force": rng.random() < 0.25, "wait": rng.choice([1, 2, 3, 5, 8])}
         if a == "feed":
             vc = rng.choice(usable)
             n = 1 if (rng.random() < 0.7 or self.focus.get("single")) else 2
+            if getattr(self, "stopped", False) and rng.random() < 0.3:
+                # a request and the answer to the node's DPR in one network read: output is pending when the DPA arrives
+                hbh, e2e = self._ids()
+                host = next((p["host"] for p in self.r.full_cfg["peers"] if w.peers[p["name"]].connection is not None
+                             and w.c_of(w.peers[p["name"]].connection) == vc.c), None)
+                if host:
+                    first = M("DW", True, hbh, e2e, oh=host) if rng.random() < 0.6 else M("APP", True, hbh, e2e, app=4, oh=host, realm="r1")
+                    pend = [m for m in vc.tx if m["cmd"] == "DP" and m["req"]]
+                    h2, e2 = (pend[-1]["hbh"], pend[-1]["e2e"]) if pend else self._ids()
+                    return {"a": "feed", "c": vc.c, "ms": [first, M("DP", False, h2, e2, oh=host, rc=2001)]}
             return {"a": "feed", "c": vc.c, "ms": [self.message(vc) for _ in range(n)]}
         if a in ("peer_close", "peer_reset", "garbage"):
             return {"a": a, "c": rng.choice(usable).c}
